@@ -324,11 +324,23 @@ impl AnyReader {
     }
 
     /// Runs one query; `limit` = consume only that many records, then drop the iterator.
-    fn query(&mut self, header: &sam::Header, region: &Region, limit: Option<usize>) -> std::io::Result<Vec<RecordBuf>> {
+    /// With `target` the records are pulled with `Query::read_record_buf` into that one reused
+    /// `RecordBuf` (and snapshotted) instead of through the `records()` iterator.
+    fn query(&mut self, header: &sam::Header, region: &Region, limit: Option<usize>, target: Option<&mut RecordBuf>) -> std::io::Result<Vec<RecordBuf>> {
         let n = limit.unwrap_or(usize::MAX);
-        match self {
-            AnyReader::Indexed(r) => r.query(header, region)?.records().take(n).collect(),
-            AnyReader::Plain(r, ix) => r.query(header, ix, region)?.records().take(n).collect(),
+        let mut q = match self {
+            AnyReader::Indexed(r) => r.query(header, region)?,
+            AnyReader::Plain(r, ix) => r.query(header, ix, region)?,
+        };
+        match target {
+            None => q.records().take(n).collect(),
+            Some(t) => {
+                let mut out = Vec::new();
+                while out.len() < n && q.read_record_buf(t)? != 0 {
+                    out.push(t.clone());
+                }
+                Ok(out)
+            }
         }
     }
 
@@ -389,6 +401,8 @@ fn run_queries(
         }
     };
     let name = |k: &(Vec<u8>, u16)| String::from_utf8_lossy(&k.0).to_string();
+    // one RecordBuf for all `read_record_buf` pulls of this reader
+    let mut target = RecordBuf::default();
     // what the same reader did just before (for the diagnosis of leftover state)
     let mut prev = "first-call".to_string();
     let mut prev_ref: Option<usize> = None;
@@ -398,7 +412,11 @@ fn run_queries(
         let want_keys: Vec<(Vec<u8>, u16)> = want.iter().map(|r| key_of_desc(r)).collect();
         // consumption: full (6/10), partial then dropped (4/10)
         let limit = if rng.below(10) < 6 { None } else { Some(rng.usize_below(want.len() + 2)) };
-        let res = guard::catch(|| reader.query(&header, &region, limit));
+        let into_reused_target = rng.bool();
+        if into_reused_target {
+            o.count("queries_read_into_one_reused_record_buf", 1);
+        }
+        let res = guard::catch(|| reader.query(&header, &region, limit, if into_reused_target { Some(&mut target) } else { None }));
         o.count("queries", 1);
         o.count(&format!("queries[{}]", g.kind), 1);
         let this = match (limit, prev_ref) {
@@ -457,6 +475,21 @@ fn run_queries(
         };
         let got_keys = filter(o, &got);
         o.count("records_returned", got_keys.len() as u64);
+        // the content of what came back (full comparison is C07's; this sees stale state in reused buffers)
+        for r in &got {
+            let Some(w) = by_key.get(&key_of_buf(r)) else { continue };
+            let diffs = [
+                ("position", r.alignment_start().map(usize::from) != w.pos),
+                ("bases", !AsRef::<[u8]>::as_ref(r.sequence()).eq_ignore_ascii_case(&w.bases)),
+                ("quality-scores", AsRef::<[u8]>::as_ref(r.quality_scores()) != &w.quals[..]),
+                ("tag-count", r.data().len() != w.tags.len()),
+                ("cigar-length", r.cigar().as_ref().iter().map(|op| if op.kind().consumes_reference() { op.len() } else { 0 }).sum::<usize>() != w.ref_len()),
+            ];
+            if let Some((f, _)) = diffs.iter().find(|d| d.1) {
+                push(o, format!("query:record-content-differs:{f}:{}", if into_reused_target { "read_record_buf-into-reused-record-buf" } else { "records-iterator" }),
+                     format!("query {} via {via}: record {:?} came back with a different {f}; written: {}", g.render(s), name(&key_of_buf(r)), w.sam_line(&s.refs)));
+            }
+        }
         let ok = match limit {
             None => got_keys == want_keys,
             // a prefix of the answer; exactly `limit` raw records unless the answer is shorter
@@ -466,7 +499,7 @@ fn run_queries(
             // Is it the reader's history? Ask a fresh reader the same question.
             let fresh = guard::catch(|| -> std::io::Result<Vec<RecordBuf>> {
                 let (mut r, h, _) = AnyReader::open(via, s, path, index)?;
-                r.query(&h, &region, None)
+                r.query(&h, &region, None, None)
             });
             let fresh_ok = matches!(&fresh, Ok(Ok(v)) if filter(o, v) == want_keys);
             let ctx_desc = format!(
